@@ -78,6 +78,13 @@ impl<A> Drop for Context<A> {
 
 /// Life-cycle
 impl<A: Actor> Context<A> {
+    /// Abort all interval and delayed tasks of the current incarnation.
+    pub(crate) fn abort_tasks(&mut self) {
+        for task in self.tasks.drain(..) {
+            task.abort();
+        }
+    }
+
     /// Stop the actor.
     pub fn stop(&self) -> Result<()> {
         if let Some(tx) = self.weak_force_tx.upgrade() {
